@@ -51,13 +51,13 @@ let dense_solve (m : Obj.t array array) (rhs : Obj.t array) : Obj.t list option 
 
 (* exact inverse of a linear operator given as a function on vectors of length n: assemble its
    matrix on unit vectors, solve, VERIFY op(x) = v *)
-let exact_inverse_of (n : int) (op : Obj.t list -> Obj.t list) : Obj.t list -> Obj.t list =
+let exact_inverse_of ?(what="singular") (n : int) (op : Obj.t list -> Obj.t list) : Obj.t list -> Obj.t list =
   let cols = Array.init n (fun j -> Array.of_list (op (unit n j))) in
   let m = Array.init n (fun i -> Array.init n (fun j -> cols.(j).(i))) in
   fun v ->
     if n = 0 then [] else
     match dense_solve m (Array.of_list v) with
-    | None -> raise (Model_exc "runtime_error singular")
+    | None -> raise (Model_exc ("runtime_error " ^ what))
     | Some x -> if veq (op x) v then x else failwith "inner solve not exact"
 
 let atoi (s : string) : int =   (* C atoi: optional sign, leading digits, 0 if none *)
@@ -108,7 +108,7 @@ let () =
     let l = if adj = 1 then C.ld_vec sc kpu kup dia else zeros np in
     let inner_u = if approx <> 0 then (fun v -> List.map2 (fun d x -> s1 *: d *: x) dia v) else solve_u in
     let s_op = C.schur_op sc adj kpp kup kpu l inner_u in
-    let solve_s = exact_inverse_of np s_op in
+    let solve_s = exact_inverse_of ~what:"singular_Schur_operator" np s_op in
     let recorded = match adj with
       | 1 -> show_crs ~sorted:true (C.kpp_adjust1 sc kpp l)
       | 2 -> "-"
